@@ -74,9 +74,10 @@ Proof. vm_compute. repeat split; reflexivity. Qed.
     vector).  A token fits a position ([AsmAccept.fits]) when it is a register where one is due, a
     literal — any radix — whose value passes the range test of the field, or a label where a label
     may stand.  The statement parser accepts exactly the token sequences that fit, consumes
-    exactly those tokens, rejects everything else with a diagnostic, and never panics. *)
+    exactly those tokens (recording the end of the last one, which bounds the statement's source
+    span), rejects everything else with a diagnostic, and never panics. *)
 Theorem C04_statement : forall sym line k toks te n,
-  AsmAccept.specL (AsmAccept.shape k) (parse_instr sym line k (toks, te) n) toks.
+  AsmAccept.specL (AsmAccept.shape k) (parse_instr sym line k (toks, te) n) toks te.
 Proof. exact AsmAccept.parse_instr_accepts. Qed.
 Print Assumptions C04_statement.
 
@@ -86,6 +87,6 @@ Proof. exact AsmAccept.parse_instr_iff. Qed.
 Print Assumptions C04_statement_iff.
 
 Theorem C04_trap_statement : forall k toks te n,
-  AsmAccept.specL (AsmAccept.trap_shape k) (parse_trap k (toks, te) n) toks.
+  AsmAccept.specL (AsmAccept.trap_shape k) (parse_trap k (toks, te) n) toks te.
 Proof. exact AsmAccept.parse_trap_accepts. Qed.
 Print Assumptions C04_trap_statement.
